@@ -31,6 +31,8 @@ SYMTAB = {
     "C14": ("Exec.RunC14", "(gtab_c14 O T)"),
     "C15": ("Exec.RunC15", "(gtab_c15 O T A)"),
     "C18": ("Exec.RunC18", "(gtab_c18 O A toNat toN)"),
+    "C16": ("Exec.RunC16", "(gtab_c16 toNat)"),
+    "C17": (None, None),   # no dispatcher lemmas: the operator-spelling clauses themselves are evaluated symbolically
 }
 
 UN_O = {"opp": "opp O", "inv": "inv O"}
@@ -214,6 +216,9 @@ def run_sym_tie(pid, symfile, workdir, timeout=240, defer=(), workers=16):
     t0 = time.time()
     os.makedirs(workdir, exist_ok=True)
     res = {"tied": [], "paths": 0, "failed": [], "unsupported": [], "deferred": [], "per_function_paths": {}}
+    if SYMTAB[pid][0] is None:
+        res["wall"] = 0.0
+        return res
     jobs = []      # (record, path index, file)
     recs = []
     for line in open(symfile):
@@ -431,6 +436,54 @@ def probe_inputs(d, seed=1, per_path=6, max_total=400):
                 got += 1
                 if got >= per_path:
                     break
+        # (C) sequential solving: walk the conditions in order and, whenever one is not met, solve it for one input
+        #     that is still free (affine case) — this reaches paths guarded by several exact equalities
+        for attempt in range(12):
+            xs = rnd_fixed(rng, arity)
+            fixed = set(conc)
+            okpath = True
+            for c in conds:
+                vals = eval_nodes(nodes, xs)
+                h = cond_holds(c, vals)
+                if h is not False:
+                    continue
+                a_, b_ = c["args"][0], c["args"][1]
+                want_true = c["v"]
+                if c["op"] == "eqb":
+                    targets = [Fraction(0)] if want_true else [Fraction(rng.randint(1, 5), rng.randint(1, 3))]
+                elif c["op"] == "ltb":
+                    targets = [Fraction(-rng.randint(1, 7), 3)] if want_true else [Fraction(0), Fraction(rng.randint(1, 7), 3)]
+                elif c["op"] == "leb":
+                    targets = [Fraction(0), Fraction(-rng.randint(1, 7), 3)] if want_true else [Fraction(rng.randint(1, 7), 3)]
+                elif c["op"] in ("abs_diff_eq", "ulps_eq", "relative_eq"):
+                    targets = [Fraction(0), EPS / 4] if want_true else [Fraction(rng.randint(1, 7), 3)]
+                else:
+                    okpath = False
+                    break
+                done = False
+                order = [k_ for k_ in range(arity) if k_ not in fixed]
+                rng.shuffle(order)
+                for t in targets:
+                    for k_ in order:
+                        xk = solve_linear(nodes, arity, xs, a_, b_, t, k_)
+                        if xk is None:
+                            continue
+                        ys = list(xs)
+                        ys[k_] = xk
+                        if cond_holds(c, eval_nodes(nodes, ys)) is True:
+                            xs = ys
+                            fixed.add(k_)
+                            done = True
+                            break
+                    if done:
+                        break
+                if not done:
+                    okpath = False
+                    break
+            if okpath:
+                vals = eval_nodes(nodes, xs)
+                if all(cond_holds(c, vals) is not False for c in conds):
+                    push(xs, "path %d (conditions solved in sequence)" % pi)
         # (B) boundary of each comparison, other comparisons of the path respected where possible
         for ci, c in enumerate(conds):
             if c["op"] not in ("eqb", "ltb", "leb", "abs_diff_eq", "ulps_eq", "relative_eq"):
